@@ -36,7 +36,7 @@ Lemma put_store_foot c now m eid :
   /\ (forall ref, ref <> fst (fst (sm_sar m)) -> dget ref (c_cur (put_store c now m eid)) = dget ref (c_cur c)).
 Proof.
   unfold put_store, put_key. destruct (is_submit m).
-  - destruct (sm_sar m) as [[ref sseq] total]. cbn [fst]. destruct (0 <? total).
+  - destruct (sm_sar m) as [[ref sseq] total]. cbn [fst]. destruct ((0 <? total) && (total <=? 255)).
     + cbn [with_store c_cur c_stat].
       destruct (1 <? sseq).
       * destruct (dget ref (c_cur c)) as [k0|].
@@ -215,7 +215,7 @@ Section Concurrent.
   Variable n : nat.                       (* the messages are numbered 0 .. n-1 *)
   Variable D : nat -> mdesc.
   Hypothesis D_ok : forall j, (j < n)%nat ->
-    (2 <= md_k (D j))%nat /\ 0 <= md_r (D j) < 65536
+    (2 <= md_k (D j) <= 255)%nat /\ 0 <= md_r (D j) < 65536
     /\ forall a b, (a < md_k (D j))%nat -> (b < md_k (D j))%nat -> md_sq (D j) a = md_sq (D j) b -> a = b.
   (* distinct sequence numbers among the messages in flight; their segmentation references may coincide *)
   Hypothesis D_sep : forall i j, (i < n)%nat -> (j < n)%nat -> i <> j ->
@@ -279,8 +279,8 @@ Section Concurrent.
           destruct HM as [(_ & _ & Hc & _) Hcur].
           rewrite (Hcur (Hord N0) (ex_intro _ i (conj Hi Hp))).
           assert (forallb (fun a => is_qnot (Q j a)) (oidx (md_k (D j))) = false) as Fn.
-          { destruct (D_ok j Hj) as (Hk2 & _). apply (oforallb_false _ Hk2 _ 0%nat); [lia|]. specialize (Hord N0). destruct (Q j 0%nat); try reflexivity. contradiction. }
-          assert (all_processed (md_k (D j)) (Q j) = false) as Fp by (destruct (D_ok j Hj) as (Hk2 & _); apply (oforallb_false _ Hk2 _ i Hi); rewrite Hp; reflexivity).
+          { destruct (D_ok j Hj) as ([Hk2 Hk3] & _). apply (oforallb_false _ Hk2 Hk3 _ 0%nat); [lia|]. specialize (Hord N0). destruct (Q j 0%nat); try reflexivity. contradiction. }
+          assert (all_processed (md_k (D j)) (Q j) = false) as Fp by (destruct (D_ok j Hj) as ([Hk2 Hk3] & _); apply (oforallb_false _ Hk2 Hk3 _ i Hi); rewrite Hp; reflexivity).
           rewrite Fn, Fp in Hc. cbn [andb] in Hc. destruct Hc as (cell & -> & _). reflexivity. }
       rewrite Ek in F. exact F.
     - destruct Hen as (Hi & Hp & Hsq & _). exists i. split; [exact Hi|].
@@ -308,8 +308,8 @@ Section Concurrent.
   Proof.
     intros HM Hen. pose proof (event_footprint s Q LR e HM Hen) as Hfoot.
     destruct Hen as (Hj & Hen & Hextra). destruct e as [j g]. cbn [fst snd] in *.
-    destruct (D_ok j Hj) as (Hk & Hrj & Hinj).
-    destruct (o_step (md_r (D j)) (md_log (D j)) (md_k (D j)) (md_sq (D j)) (md_uid (D j)) Hk Hinj s (Q j) (LR j) g (HM j Hj) Hen)
+    destruct (D_ok j Hj) as ([Hk Hk255] & Hrj & Hinj).
+    destruct (o_step (md_r (D j)) (md_log (D j)) (md_k (D j)) (md_sq (D j)) (md_uid (D j)) Hk Hk255 Hinj s (Q j) (LR j) g (HM j Hj) Hen)
       as (s' & Hs & HQ').
     exists s'. split; [exact Hs|].
     unfold gafter. cbn [fst snd]. intros i Hi. destruct (Nat.eq_dec i j) as [->|Hne].
@@ -317,7 +317,7 @@ Section Concurrent.
     - unfold QIj. rewrite !upd_other by exact Hne.
       destruct Hfoot as (a & Ha & (F1 & F2 & F3 & F4) & F5). unfold gconc in F1, F2, F3, F4, F5. cbn [fst snd] in F1, F2, F3, F4, F5.
       rewrite Hs in F1, F2, F3, F4, F5. cbn [fst] in F1, F2, F3, F4, F5.
-      pose proof (D_sep i j Hi Hj Hne) as Hsq. destruct (D_ok i Hi) as (Hki & Hri & _).
+      pose proof (D_sep i j Hi Hj Hne) as Hsq. destruct (D_ok i Hi) as ([Hki _] & Hri & _).
       destruct HQ' as [(_ & _ & _ & _ & N1 & N2 & N3 & _) _].
       apply (QI_frame _ _ _ _ _ s s' _ _ (HM i Hi)).
       + intros b Hb. apply F1. apply Hsq; assumption.
@@ -375,10 +375,10 @@ Section Concurrent.
   Proof.
     intros Hv Hj. rewrite (g_run gs hinit _ _ MI_init Hv).
     destruct (projection j gs _ _ Hv) as [Pv Pe]. split; [exact Pe|]. split; [exact Pv|].
-    rewrite Pe. destruct (D_ok j Hj) as (Hk & _ & Hinj).
-    rewrite <- (o_run (md_r (D j)) (md_log (D j)) (md_k (D j)) (md_sq (D j)) (md_uid (D j)) Hk Hinj (proj j gs) hinit _ _
+    rewrite Pe. destruct (D_ok j Hj) as ([Hk Hk255] & _ & Hinj).
+    rewrite <- (o_run (md_r (D j)) (md_log (D j)) (md_k (D j)) (md_sq (D j)) (md_uid (D j)) Hk Hk255 Hinj (proj j gs) hinit _ _
                       (QI_init _ _ _ _ _) Pv).
-    exact (outcome_exactly_once (md_r (D j)) (md_log (D j)) (md_k (D j)) (md_sq (D j)) (md_uid (D j)) Hk Hinj (proj j gs) Pv).
+    exact (outcome_exactly_once (md_r (D j)) (md_log (D j)) (md_k (D j)) (md_sq (D j)) (md_uid (D j)) Hk Hk255 Hinj (proj j gs) Pv).
   Qed.
 End Concurrent.
 
@@ -410,7 +410,7 @@ Section Stray.
   Variable n : nat.
   Variable D : nat -> mdesc.
   Hypothesis D_ok : forall j, (j < n)%nat ->
-    (2 <= md_k (D j))%nat /\ 0 <= md_r (D j) < 65536
+    (2 <= md_k (D j) <= 255)%nat /\ 0 <= md_r (D j) < 65536
     /\ forall a b, (a < md_k (D j))%nat -> (b < md_k (D j))%nat -> md_sq (D j) a = md_sq (D j) b -> a = b.
   Hypothesis D_sep : forall i j, (i < n)%nat -> (j < n)%nat -> i <> j ->
     forall a b, (a < md_k (D i))%nat -> (b < md_k (D j))%nat -> md_sq (D i) a <> md_sq (D j) b.
